@@ -100,6 +100,16 @@ class Items:
         self.m = m
         self.base = base
 
+    def __getitem__(self, key):
+        # items[k:] with k >= 0 (the only form used on a batch): the last m-k rows
+        if isinstance(key, slice) and key.stop is None and key.step is None and key.start is not None:
+            k = key.start
+            if bool(k < 0):
+                raise NotImplementedError('negative slice start on a batch')
+            k = sx.smin(k, self.m) if (sx.is_sym(k) or sx.is_sym(self.m)) else min(k, self.m)
+            return Items(self.m - k, self.base + k)
+        raise NotImplementedError('batch indexing %r' % (key,))
+
 
 def item_rows(item):
     if isinstance(item, ShArr):
